@@ -272,7 +272,12 @@ def build_expr(node, env):
         return cls(*[A(a) for a in node[2]], **kw)
     if k == "cfn":
         kw = dict(node[3]) if len(node) > 3 else {}
+        if isinstance(kw.get("schema"), str):
+            kw["schema"] = P.Schema(kw["schema"])
         return terms.Function(node[1], *[A(a) for a in node[2]], **kw)
+    if k == "customfn":
+        # ["customfn", name, [parameter names], [args]] : a user-declared function (CustomFunction factory) called with args
+        return P.CustomFunction(node[1], list(node[2]))(*[A(a) for a in node[3]])
     if k == "aggfn":
         f = terms.AggregateFunction(node[1], *[A(a) for a in node[2]])
         return f
